@@ -326,6 +326,18 @@ func (rt *LockRuntime) Blocked() int {
 	return rt.blocked
 }
 
+// BlockedRoots: the parties that have a goroutine waiting for a simulated lock (its holder may in turn be held
+// by the driver, so what such a party does "late" is not its own doing). Driver, at quiescence.
+func (rt *LockRuntime) BlockedRoots() map[string]bool {
+	rt.mu.Lock()
+	defer rt.mu.Unlock()
+	out := map[string]bool{}
+	for g := range rt.waiting {
+		out[RootOf(g)] = true
+	}
+	return out
+}
+
 // Waiting lists the blocked goroutines (debugging aid), sorted.
 func (rt *LockRuntime) Waiting() []string {
 	rt.mu.Lock()
